@@ -87,10 +87,12 @@ def _reset(job, force=False):
         # Build a 'feature' set that is ultimately going to contain commits
         # from the current feature branch + those from potentially earlier
         # (pre-rebase) versions of the feature branch
-        feature = set(src.get_commit_diff(dst))
+        feature = set(src.get_commit_diff(dst, ignore_merges=False))
 
-        # Analyse commits from the integration branch
-        wcommits = reversed(list(branch.get_commit_diff(dst)))
+        # Analyse commits from the integration branch, merge commits
+        # included: a conflict resolution is a merge commit.
+        wcommits = reversed(list(branch.get_commit_diff(dst,
+                                                        ignore_merges=False)))
         for rev in wcommits:
             if rev in feature:
                 continue
@@ -101,17 +103,17 @@ def _reset(job, force=False):
             # At this point, we want to avoid blocking on commits that were
             # part of the feature branch in the past. Given the branching
             # algorithm:
-            # - if the commit is not a merge (has only one parent)
-            # - and if it is based on either a commit from the development
-            #   branch or the current 'feature' set.
+            # - if every parent of the commit is either a commit from the
+            #   development branch or from the current 'feature' set
+            #   (a merge of the development branch into the feature branch
+            #   has two such parents),
             #
             # Then this commit once belonged to the feature branch,
             # so we add it to the 'feature' set.
-            if len(rev.parents) == 1:
-                parent = rev.parents[0]
-                if parent in feature or dst.includes_commit(parent):
-                    feature.add(rev)
-                    continue
+            if all(parent in feature or dst.includes_commit(parent)
+                   for parent in rev.parents):
+                feature.add(rev)
+                continue
 
             # If we reach this point:
             #
